@@ -1353,7 +1353,7 @@ func (mvcc *MVCCLevelDB) Cleanup(key []byte, startTS, currentTS uint64) error {
 		return err
 	}
 	batch.Put(writeKey, writeValue)
-	return nil
+	return mvcc.getDB("").Write(batch, nil)
 }
 
 // CheckTxnStatus checks the primary lock of a transaction to decide its status.
